@@ -4,16 +4,29 @@ import SerfProofs.Props.C09Sites
 C09 — no network input crashes a node.
 
 Part 1 (`C09Sites.lean`): every panic-capable expression the extractor finds in the functions
-reachable from network input is safe under the path condition derived from the source
-(`C09_all_sites`).
+reachable from the memberlist delegates (reachability computed from the source) is safe under the
+path condition derived from the source (`C09_all_sites`).
 
 Part 2 (here): the control skeleton of NotifyMsg / MergeRemoteState / handleUserEvent / handleQuery /
-shouldProcessQuery / the internal-query dispatcher / the key handlers (`SerfModel.Handlers`), with a
-`.panic site` outcome wherever the code indexes, slices or takes a modulo, never reaches `.panic` —
-for every byte string, every decoder (any total function) and every state with positive buffer
-sizes (the configuration precondition; `LTime % len(buffer)` divides by it).  The guard facts are
-taken from the proved site obligations of part 1, so a guard removed from the source breaks part 1
-and with it these proofs' premises.
+handleQueryResponse / sendAck / sendResponse / shouldProcessQuery / the internal-query dispatcher / the
+key handlers (`SerfModel.Handlers`), with a `.panic site` outcome wherever the code indexes, slices,
+takes a modulo, writes to a possibly-nil map or sends on a possibly-closed channel, never reaches
+`.panic`:
+
+* `C09_NotifyMsg_never_panics`, `C09_MergeRemoteState_never_panics`: for EVERY byte string, EVERY
+  decoder (the decode step is an oracle: any total function to `Option`), every scheduling of the
+  reply channel and every state satisfying `WF` (positive buffer sizes — the configuration
+  precondition — and the constructor invariants of open queries);
+* `C09_run_never_panics`: hence for every history of inputs;
+* `C09_skeleton_covers_generated_sites`: the skeleton's checked operations are exactly tied to the
+  regenerated inventory: every index/slice/modulo/map-write/send site the extractor lists for the
+  modelled functions is one of the skeleton's `.panic` sites (or a listed trivially-safe one), so a
+  new site in those functions (e.g. `raw[0]` in the relay branch) breaks this `decide` as well;
+* the guard facts used in the proofs are instances of the proved site obligations of part 1, so a
+  guard removed from the source breaks part 1 and with it the premises here;
+* the buffer-size precondition is necessary (`C09_buffer_precondition_necessary`: a user event at
+  Lamport time 2^64-1 wraps the clock to 0 and reaches `LTime % 0`), and only there
+  (`C09_zero_buffer_harmless_below_max`).
 -/
 namespace SerfProofs.C09
 open SerfModel.Handlers SerfModel.Gen.PanicSites
@@ -27,21 +40,32 @@ theorem getElem0 {α} (x : List α) (h : 0 < x.length) : ∃ a, x[0]? = some a :
   | cons a t => exact ⟨a, rfl⟩
 
 /-- the buffer step never panics when the buffer is non-empty, and keeps the buffer's length -/
-theorem bufferStep_ok (sd si : String) (buf : List (Option Nat)) (minT clock lt : Nat) (hpos : 0 < buf.length) :
-    ∃ b' f, bufferStep sd si buf minT clock lt = .val (b', f) ∧ b'.length = buf.length := by
+theorem bufferStep_ok (sd si si2 : String) (buf : List (Option Nat)) (minT clock lt : Nat) (hpos : 0 < buf.length) :
+    ∃ b' f, bufferStep sd si si2 buf minT clock lt = .val (b', f) ∧ b'.length = buf.length := by
   unfold bufferStep
   by_cases h1 : lt < minT
   · exact ⟨buf, false, by simp [h1], rfl⟩
   · by_cases h2 : clock > buf.length ∧ lt < clock - buf.length
     · exact ⟨buf, false, by simp [h1, h2], rfl⟩
     · have hne : ¬ buf.length = 0 := by omega
-      -- the index obligation is the generated site (instantiated at the actual lengths)
+      -- both index obligations are the generated sites, instantiated at the actual lengths
       have hidx : lt % buf.length < buf.length :=
-        C09_site_Serf_handleUserEvent_index_s_eventBuffer_idx buf.length clock lt (lt % buf.length) minT h1
-          (by intro hc; exact h2 hc) rfl hpos
-      have : ∃ a, buf[lt % buf.length]? = some a := ⟨buf[lt % buf.length], by simp [hidx]⟩
-      obtain ⟨a, ha⟩ := this
-      exact ⟨buf.set (lt % buf.length) (some lt), true, by simp [h1, h2, hne, ha], by simp⟩
+        C09_site_Serf_handleUserEvent_index_s_eventBuffer_idx buf.length clock lt (lt % buf.length) minT h1 h2 rfl hpos
+      have hget : buf[lt % buf.length]? = some (buf[lt % buf.length]) := by simp [hidx]
+      simp only [h1, h2, hne, if_false, hget]
+      cases buf[lt % buf.length] with
+      | none =>
+        have hidx2 : lt % buf.length < buf.length :=
+          C09_site_Serf_handleUserEvent_index_s_eventBuffer_idx_2 buf.length 0 clock lt (lt % buf.length) minT 0 h1 h2 rfl
+            (by simp) hpos
+        exact ⟨buf.set (lt % buf.length) (some lt), true, by simp [hidx2], by simp⟩
+      | some t =>
+        by_cases ht : t = lt
+        · exact ⟨buf, true, by simp [ht], rfl⟩
+        · have hidx2 : lt % buf.length < buf.length :=
+            C09_site_Serf_handleUserEvent_index_s_eventBuffer_idx_2 buf.length 1 clock lt (lt % buf.length) minT t h1 h2 rfl
+              (by intro h; exact ht h.2) hpos
+          exact ⟨buf.set (lt % buf.length) (some lt), true, by simp [ht, hidx2], by simp⟩
 
 theorem shouldProcess_ok (d : Dec) : ∀ fs : List (List Nat), ∃ b, shouldProcess d fs = .val b := by
   intro fs
@@ -108,24 +132,26 @@ theorem internalQuery_ok (d : Dec) (q : Query) : ∀ s, internalQuery d q ≠ .p
 theorem handleUserEvent_ok (cfg : Cfg) (st : State) (lt : Nat) (h : WF cfg st) :
     (∀ s, (handleUserEvent st lt).2 ≠ .panic s) ∧ WF cfg (handleUserEvent st lt).1 := by
   obtain ⟨b', f, hb, hl⟩ := bufferStep_ok "site_Serf_handleUserEvent_div_LamportTime_len_s_eventBuffer"
-    "site_Serf_handleUserEvent_index_s_eventBuffer_idx" st.eventBuf st.eventMin (max st.eventClock (lt + 1)) lt (by rw [h.2.2.1]; exact h.1)
+    "site_Serf_handleUserEvent_index_s_eventBuffer_idx" "site_Serf_handleUserEvent_index_s_eventBuffer_idx_2"
+    st.eventBuf st.eventMin (witness st.eventClock lt) lt (by rw [h.2.2.1]; exact h.1)
   unfold handleUserEvent
-  rw [hb]
-  exact ⟨by intro s; simp, h.1, h.2.1, by simp [hl, h.2.2.1], h.2.2.2⟩
+  simp only [hb]
+  exact ⟨by intro s; simp, h.1, h.2.1, by simp [hl, h.2.2.1], h.2.2.2.1, h.2.2.2.2⟩
 
 theorem handleQuery_ok (cfg : Cfg) (d : Dec) (st : State) (q : Query) (h : WF cfg st) :
     (∀ s, (handleQuery d st q).2 ≠ .panic s) ∧ WF cfg (handleQuery d st q).1 := by
   obtain ⟨b', f, hb, hl⟩ := bufferStep_ok "site_Serf_handleQuery_div_LamportTime_len_s_queryBuffer"
-    "site_Serf_handleQuery_index_s_queryBuffer_idx" st.queryBuf st.queryMin (max st.queryClock (q.ltime + 1)) q.ltime (by rw [h.2.2.2]; exact h.2.1)
+    "site_Serf_handleQuery_index_s_queryBuffer_idx" "site_Serf_handleQuery_index_s_queryBuffer_idx_2"
+    st.queryBuf st.queryMin (witness st.queryClock q.ltime) q.ltime (by rw [h.2.2.2.1]; exact h.2.1)
   unfold handleQuery
-  rw [hb]
+  simp only [hb]
   cases f with
-  | false => exact ⟨by intro s; simp, h.1, h.2.1, h.2.2.1, h.2.2.2⟩
+  | false => exact ⟨by intro s; simp, h.1, h.2.1, h.2.2.1, h.2.2.2.1, h.2.2.2.2⟩
   | true =>
     obtain ⟨b, hsp⟩ := shouldProcess_ok d q.filters
     simp only [hsp]
-    have wf' : WF cfg { st with queryBuf := b', queryClock := max st.queryClock (q.ltime + 1) } :=
-      ⟨h.1, h.2.1, h.2.2.1, by simp [hl, h.2.2.2]⟩
+    have wf' : WF cfg { st with queryBuf := b', queryClock := witness st.queryClock q.ltime } :=
+      ⟨h.1, h.2.1, h.2.2.1, by simp [hl, h.2.2.2.1], h.2.2.2.2⟩
     cases b with
     | false => exact ⟨by intro s; simp, wf'⟩
     | true =>
@@ -135,31 +161,79 @@ theorem handleQuery_ok (cfg : Cfg) (d : Dec) (st : State) (q : Query) (h : WF cf
       | ok r => exact ⟨by intro s; simp, wf'⟩
       | ignored w => exact ⟨by intro s; simp, wf'⟩
 
-theorem notifyMsg_ok (cfg : Cfg) (d : Dec) (st : State) (buf : List Nat) (h : WF cfg st) :
-    (∀ s, (notifyMsg d st buf).2 ≠ .panic s) ∧ WF cfg (notifyMsg d st buf).1 := by
+/-- sendAck: the map write happens only inside the select case on the non-nil channel, and the send
+only on a channel that is not closed — both from the generated site obligations. -/
+theorem sendAck_ok (q : OpenQuery) (sc : Sched) (h : q.WF) : ∀ s, sendAck q sc ≠ .panic s := by
+  intro s
+  have hmap := C09_site_QueryResponse_sendAck_mapwrite_r_acks q.ackCh.toNat q.acksMap.toNat
+  have hsend := C09_site_QueryResponse_sendAck_send_r_ackCh q.chClosed.toNat q.closed.toNat
+  obtain ⟨h1, _, h3⟩ := h
+  unfold sendAck
+  cases hc : q.closed <;> cases ha : q.ackCh <;> cases hk : q.chClosed <;> cases hm : q.acksMap <;> cases sc.space <;>
+    simp_all [Bool.toNat]
+
+theorem sendResponse_ok (q : OpenQuery) (sc : Sched) (h : q.WF) : ∀ s, sendResponse q sc ≠ .panic s := by
+  intro s
+  have hmap := C09_site_QueryResponse_sendResponse_mapwrite_r_responses q.responsesMap.toNat
+  have hsend := C09_site_QueryResponse_sendResponse_send_r_respCh q.chClosed.toNat q.closed.toNat
+  obtain ⟨_, h2, h3⟩ := h
+  unfold sendResponse
+  cases hc : q.closed <;> cases hk : q.chClosed <;> cases hm : q.responsesMap <;> cases sc.space <;>
+    simp_all [Bool.toNat]
+
+theorem handleQueryResponse_ok (cfg : Cfg) (st : State) (r : Response) (sc : Sched) (h : WF cfg st) :
+    ∀ s, handleQueryResponse st r sc ≠ .panic s := by
+  intro s
+  unfold handleQueryResponse
+  cases hf : st.openQueries.find? (fun q => q.ltime == r.ltime) with
+  | none => simp
+  | some q =>
+    have hq : q.WF := h.2.2.2.2 q (List.mem_of_find?_eq_some hf)
+    simp only
+    split
+    · simp
+    · split
+      · simp
+      · split
+        · exact sendAck_ok q sc hq s
+        · exact sendResponse_ok q sc hq s
+
+theorem notifyMsg_ok (cfg : Cfg) (d : Dec) (st : State) (buf : List Nat) (sc : Sched) (h : WF cfg st) :
+    (∀ s, (notifyMsg d st buf sc).2 ≠ .panic s) ∧ WF cfg (notifyMsg d st buf sc).1 := by
   unfold notifyMsg
   by_cases h0 : buf.length = 0
   · simp [h0, h]
   · have hpos : 0 < buf.length := C09_site_delegate_NotifyMsg_index_buf_0 buf.length h0
-    have hs : 1 ≤ buf.length := by omega
+    -- one slice obligation per branch of the switch (leave, join, user event, query, response, relay)
+    have hs1 := (C09_site_delegate_NotifyMsg_slice_buf_1 buf.length h0).1
+    have hs2 := (C09_site_delegate_NotifyMsg_slice_buf_1_2 buf.length h0).1
+    have hs3 := (C09_site_delegate_NotifyMsg_slice_buf_1_3 buf.length h0).1
+    have hs4 := (C09_site_delegate_NotifyMsg_slice_buf_1_4 buf.length h0).1
+    have hs5 := (C09_site_delegate_NotifyMsg_slice_buf_1_5 buf.length h0).1
+    have hs6 := (C09_site_delegate_NotifyMsg_slice_buf_1_6 buf.length h0).1
     obtain ⟨t, ht⟩ := getElem0 buf hpos
-    simp only [h0, if_false, ht, slice1_ok _ buf hs]
+    simp only [h0, if_false, ht]
     split
-    · cases d.leave (buf.drop 1) <;> simp [h]
+    · simp only [slice1_ok _ buf hs1]; split <;> simp [h]
     · split
-      · cases d.join (buf.drop 1) <;> simp [h]
+      · simp only [slice1_ok _ buf hs2]; split <;> simp [h]
       · split
-        · cases d.userEvent (buf.drop 1) with
-          | none => simp [h]
-          | some lt => exact handleUserEvent_ok cfg st lt h
+        · simp only [slice1_ok _ buf hs3]
+          split
+          · simp [h]
+          · exact handleUserEvent_ok cfg st _ h
         · split
-          · cases d.query (buf.drop 1) with
-            | none => simp [h]
-            | some q => exact handleQuery_ok cfg d st q h
+          · simp only [slice1_ok _ buf hs4]
+            split
+            · simp [h]
+            · exact handleQuery_ok cfg d st _ h
           · split
-            · cases d.queryResponse (buf.drop 1) <;> simp [h]
+            · simp only [slice1_ok _ buf hs5]
+              split
+              · simp [h]
+              · exact ⟨handleQueryResponse_ok cfg st _ sc h, h⟩
             · split
-              · cases d.relayHeader (buf.drop 1) <;> simp [h]
+              · simp only [slice1_ok _ buf hs6]; split <;> simp [h]
               · simp [h]
 
 theorem mergeEvents_ok (cfg : Cfg) : ∀ (evs : List (Option (Nat × Nat))) (st : State), WF cfg st →
@@ -189,24 +263,123 @@ theorem mergeRemoteState_ok (cfg : Cfg) (d : Dec) (st : State) (buf : List Nat) 
   by_cases h0 : buf.length = 0
   · simp [h0, h]
   · have hpos : 0 < buf.length := C09_site_delegate_MergeRemoteState_index_buf_0 buf.length h0
-    have hs : 1 ≤ buf.length := by omega
+    have hs : 1 ≤ buf.length := (C09_site_delegate_MergeRemoteState_slice_buf_1 buf.length h0).1
     obtain ⟨t, ht⟩ := getElem0 buf hpos
     simp only [h0, if_false, ht]
     by_cases t2 : t = 2
     · simp only [t2, ne_eq, not_true_eq_false, if_false, slice1_ok _ buf hs]
-      cases d.pushPull (buf.drop 1) with
-      | none => simp [h]
-      | some pp => exact mergeEvents_ok cfg pp.events st h
+      split
+      · simp [h]
+      · exact mergeEvents_ok cfg _ st h
     · simp [t2, h]
 
-/-- **C09, headline.** For every configuration with positive buffer sizes, every decoder, every
-well-formed state and every input (any byte string at either entry point) the handler skeleton does
-not reach a panic site, and the state stays well-formed. -/
+theorem pingComplete_ok (cfg : Cfg) (d : Dec) (p : List Nat) : ∀ s, pingComplete cfg d p ≠ .panic s := by
+  intro s
+  unfold pingComplete
+  by_cases h0 : p.length = 0
+  · simp [h0]
+  · have hpos : 0 < p.length := C09_site_pingDelegate_NotifyPingComplete_index_payload_0 p.length h0
+    have hs : 1 ≤ p.length := (C09_site_pingDelegate_NotifyPingComplete_slice_payload_1 p.length h0).1
+    obtain ⟨v, hv⟩ := getElem0 p hpos
+    simp only [h0, if_false, hv, slice1_ok _ p hs]
+    split
+    · simp
+    · split
+      · simp
+      · split <;> simp
+
+theorem decodeTags_ok (d : Dec) (b : List Nat) : ∀ s, decodeTags d b ≠ .panic s := by
+  intro s
+  unfold decodeTags
+  by_cases h0 : b.length = 0
+  · simp [h0]
+  · have hpos : 0 < b.length := C09_site_Serf_decodeTags_index_buf_0 b.length h0
+    obtain ⟨x, hx⟩ := getElem0 b hpos
+    simp only [h0, if_false, hx]
+    by_cases hm : x ≠ 255
+    · simp [hm]
+    · -- the slice obligation under the negated short-circuit condition `len(buf) == 0 || buf[0] != magic`
+      have hs : 1 ≤ b.length := (C09_site_Serf_decodeTags_slice_buf_1 b.length x (by intro h; cases h with | inl h => exact h0 h | inr h => exact hm h)).1
+      simp only [hm, if_false, slice1_ok _ b hs]
+      split <;> simp
+
+theorem typedReply_ok (si ss : String) (typ : Nat) (dec : List Nat → Option Unit) (p : List Nat)
+    (hidx : ¬ p.length < 1 → 0 < p.length) (hslice : ∀ t, ¬ (p.length < 1 ∨ t ≠ typ) → 1 ≤ p.length ∧ p.length ≤ p.length) :
+    ∀ s, typedReply si ss typ dec p ≠ .panic s := by
+  intro s
+  unfold typedReply
+  by_cases h0 : p.length < 1
+  · simp [h0]
+  · obtain ⟨t, ht⟩ := getElem0 p (hidx h0)
+    simp only [h0, if_false, ht]
+    by_cases htt : t ≠ typ
+    · simp [htt]
+    · have hs := (hslice t (by intro h; cases h with | inl h => exact h0 h | inr h => exact htt h)).1
+      simp only [htt, if_false, slice1_ok _ p hs]
+      split <;> simp
+
+theorem conflictReply_ok (d : Dec) (p : List Nat) : ∀ s, conflictReply d p ≠ .panic s :=
+  typedReply_ok _ _ 6 d.member p (C09_site_Serf_resolveNodeConflict_index_r_Payload_0 p.length)
+    (fun t => C09_site_Serf_resolveNodeConflict_slice_r_Payload_1 p.length t)
+
+theorem keyReply_ok (d : Dec) (p : List Nat) : ∀ s, keyReply d p ≠ .panic s :=
+  typedReply_ok _ _ 8 d.keyResponse p (C09_site_KeyManager_streamKeyResp_index_r_Payload_0 p.length)
+    (fun t => C09_site_KeyManager_streamKeyResp_slice_r_Payload_1 p.length t)
+
+/-- **C09, NotifyMsg.** For every byte string delivered to `NotifyMsg`, every decode oracle, every
+scheduling of the reply channel and every state satisfying the configuration preconditions, the
+handler returns without panicking and leaves a well-formed state. -/
+theorem C09_NotifyMsg_never_panics (cfg : Cfg) (d : Dec) (st : State) (buf : List Nat) (sc : Sched) (h : WF cfg st) :
+    (∀ s, (notifyMsg d st buf sc).2 ≠ .panic s) ∧ WF cfg (notifyMsg d st buf sc).1 :=
+  notifyMsg_ok cfg d st buf sc h
+
+/-- **C09, MergeRemoteState.** The same for every byte string delivered as a push/pull state. -/
+theorem C09_MergeRemoteState_never_panics (cfg : Cfg) (d : Dec) (st : State) (buf : List Nat) (h : WF cfg st) :
+    (∀ s, (mergeRemoteState d st buf).2 ≠ .panic s) ∧ WF cfg (mergeRemoteState d st buf).1 :=
+  mergeRemoteState_ok cfg d st buf h
+
+/-- **C09, probe acks, member metadata, replies.** Every probe-ack payload, every metadata blob and every
+reply payload routed to the name-conflict vote or to a key command is processed without panicking. -/
+theorem C09_payload_handlers_never_panic (cfg : Cfg) (d : Dec) (p : List Nat) :
+    (∀ s, pingComplete cfg d p ≠ .panic s) ∧ (∀ s, decodeTags d p ≠ .panic s) ∧
+    (∀ s, conflictReply d p ≠ .panic s) ∧ (∀ s, keyReply d p ≠ .panic s) :=
+  ⟨pingComplete_ok cfg d p, decodeTags_ok d p, conflictReply_ok d p, keyReply_ok d p⟩
+
+/-- **C09, malformed input is ignored.** A gossip message or state-sync payload that does not decode
+(the oracle rejects it) changes nothing and is reported as ignored — whatever its bytes. -/
+theorem C09_undecodable_input_is_ignored (st : State) (buf : List Nat) (sc : Sched) :
+    (∃ why, notifyMsg rejectAll st buf sc = (st, .ignored why)) ∧ (∃ why, mergeRemoteState rejectAll st buf = (st, .ignored why)) := by
+  constructor
+  · unfold notifyMsg
+    by_cases h0 : buf.length = 0
+    · exact ⟨"empty", by simp [h0]⟩
+    · have hpos : 0 < buf.length := by omega
+      have hs : 1 ≤ buf.length := by omega
+      obtain ⟨t, ht⟩ := getElem0 buf hpos
+      simp only [h0, if_false, ht, slice1_ok _ buf hs, rejectAll]
+      repeat (first | exact ⟨_, rfl⟩ | split)
+  · unfold mergeRemoteState
+    by_cases h0 : buf.length = 0
+    · exact ⟨"empty", by simp [h0]⟩
+    · have hpos : 0 < buf.length := by omega
+      have hs : 1 ≤ buf.length := by omega
+      obtain ⟨t, ht⟩ := getElem0 buf hpos
+      simp only [h0, if_false, ht, slice1_ok _ buf hs, rejectAll]
+      repeat (first | exact ⟨_, rfl⟩ | split)
+
+example : ∃ why, notifyMsg rejectAll initState [4, 0xc1] {} = (initState, .ignored why) :=
+  (C09_undecodable_input_is_ignored initState [4, 0xc1] {}).1
+
+/-- all entry points -/
 theorem C09_handle_never_panics (cfg : Cfg) (d : Dec) (st : State) (inp : Input) (h : WF cfg st) :
     (∀ s, (handle cfg d st inp).2 ≠ .panic s) ∧ WF cfg (handle cfg d st inp).1 := by
   cases inp with
-  | msg b => exact notifyMsg_ok cfg d st b h
+  | msg b sc => exact notifyMsg_ok cfg d st b sc h
   | merge b => exact mergeRemoteState_ok cfg d st b h
+  | ping p => exact ⟨pingComplete_ok cfg d p, h⟩
+  | metadata b => exact ⟨decodeTags_ok d b, h⟩
+  | conflictReply p => exact ⟨conflictReply_ok d p, h⟩
+  | keyReply p => exact ⟨keyReply_ok d p, h⟩
 
 /-- … hence no sequence of network inputs, of any length, makes the node panic. -/
 theorem C09_run_never_panics (cfg : Cfg) (d : Dec) : ∀ (inps : List Input) (st : State), WF cfg st →
@@ -226,20 +399,78 @@ theorem C09_run_never_panics (cfg : Cfg) (d : Dec) : ∀ (inps : List Input) (st
       | ok r => simpa using ih st' hh.2 s
       | ignored w => simpa using ih st' hh.2 s
 
--- non-vacuity: the hypothesis is satisfiable, and the skeleton does real work on a concrete input
-example : WF defaultCfg initState := by unfold WF; decide
+-- non-vacuity: the hypothesis is satisfiable, and the skeleton does real work on concrete inputs
+example : WF defaultCfg initState := by
+  refine ⟨by decide, by decide, by decide, by decide, ?_⟩
+  intro q hq; simp [initState] at hq
 example : (handle defaultCfg rejectAll initState (.msg [])).2 = .ignored "empty" := by decide
 example : (handle defaultCfg rejectAll initState (.merge [2, 0x90])).2 = .ignored "push/pull does not decode" := by decide
+/-- a decoder that accepts everything as a user event at time 7: the buffer is written -/
+example : (handle defaultCfg { rejectAll with userEvent := fun _ => some 7 } initState (.msg [3, 0x80])).2 = .ok true := by decide
 
-/-- the buffer-size precondition is what the modulo site needs: on an empty buffer the de-dup step
-reaches the division (a configuration error, not a network input; in the real callers the clock has
-already witnessed the message time, so the "too old" test fires first even then). -/
-theorem C09_zero_buffer_counterexample :
-    (match bufferStep "div" "idx" [] 0 0 5 with | .panic s => s | .val _ => "no panic") = "div" := by decide
+/-! ### The skeleton is tied to the regenerated inventory -/
+
+/-- the generated sites of a function, restricted to the given kinds -/
+def genSitesOf (fn : String) (kinds : List String) : List String :=
+  match sitesByFunction.find? (fun p => p.1 == fn) with
+  | none => []
+  | some p => (p.2.filter (fun sk => kinds.contains sk.2)).map (·.1)
+
+/-- Every index/slice/modulo/map-write/send site the extractor lists for a modelled function is a
+`.panic` site of the skeleton (or one of the listed trivially-safe ones), and every modelled function
+is still present in the inventory.  A new site in these functions breaks this check. -/
+theorem C09_skeleton_covers_generated_sites :
+    (modelled.all fun fk =>
+      (sitesByFunction.any fun p => p.1 == fk.1) &&
+      (genSitesOf fk.1 fk.2).all fun s => coveredSites.contains s || triviallySafe.contains s) = true := by
+  decide
+
+/-- conversely every `.panic` site of the skeleton is a generated (and therefore proved) site -/
+theorem C09_skeleton_sites_are_generated : (coveredSites.all fun s => siteNames.contains s) = true := by
+  decide
+
+/-! ### The configuration precondition -/
+
+/-- The buffer-size precondition is necessary: a node configured with `EventBuffer = 0` that receives a
+user event at Lamport time 2^64-1 divides by zero — `Witness` wraps the clock to 0, so the "too old"
+test does not fire (replayed on the real code by the harness case `zerobuf`). -/
+theorem C09_buffer_precondition_necessary :
+    (handleUserEvent { eventBuf := [], queryBuf := [] } (twoPow64 - 1)).2 =
+      .panic "site_Serf_handleUserEvent_div_LamportTime_len_s_eventBuffer" ∧
+    (handleQuery rejectAll { eventBuf := [], queryBuf := [] }
+        { ltime := twoPow64 - 1, id := 0, name := [], payload := [], filters := [], ack := false, noBroadcast := false }).2 =
+      .panic "site_Serf_handleQuery_div_LamportTime_len_s_queryBuffer" := by
+  constructor <;> decide
+
+/-- … and it is needed only there: below the top of the clock the witnessed time is always later than
+the message, so an empty buffer makes every message "too old" and the modulo is never reached. -/
+theorem C09_zero_buffer_harmless_below_max (st : State) (lt : Nat) (hb : st.eventBuf = []) (hlt : lt + 1 < twoPow64) :
+    ∀ s, (handleUserEvent st lt).2 ≠ .panic s := by
+  intro s
+  have hw : lt < witness st.eventClock lt := by
+    unfold witness
+    split
+    · assumption
+    · rw [Nat.mod_eq_of_lt hlt]; omega
+  unfold handleUserEvent bufferStep
+  simp only [hb, List.length_nil]
+  by_cases h1 : lt < st.eventMin
+  · simp [h1]
+  · have : witness st.eventClock lt > 0 ∧ lt < witness st.eventClock lt - 0 := ⟨by omega, by omega⟩
+    have hp : 0 < witness st.eventClock lt := by omega
+    simp [h1, hw, hp]
+
+example : (5 : Nat) + 1 < twoPow64 := by decide
 
 /-- regression witnesses for the two repaired defects, on the model WITHOUT the guards: an empty
 filter entry reaches `filter[0]`, an empty key payload reaches `Payload[1:]`. -/
 theorem C09_empty_filter_unguarded_witness : ([] : List Nat)[0]? = none := rfl
 theorem C09_empty_payload_unguarded_witness : slice1 "site" [] = .panic "site" := rfl
+
+/-- without the open-query invariant (ack channel made ⇒ ack map made) the skeleton's map-write site
+is reachable: the shape of the seeded defect that records the sender before the select. -/
+theorem C09_ack_invariant_necessary :
+    sendAck { ltime := 1, id := 1, ackCh := true, acksMap := false } {} = .panic "site_QueryResponse_sendAck_mapwrite_r_acks" := by
+  decide
 
 end SerfProofs.C09
